@@ -1,0 +1,25 @@
+//go:build verif
+
+// Contracts for the verification engine in /verif (comment-only file; it is
+// compiled only with the build tag "verif" and contains no code).
+
+package binder
+
+// C15: the status rewritten by fixStatus comes from the binder's error function,
+// which builds a new status per error (assumed for user-supplied functions,
+// proved for the default one).
+//@ iface dynamic:plugin/binder.ErrorFunc
+//@   flags libframe
+//@   ensures[fresh-status] !sharedStatus(result)
+
+//@ func (*Param).fixStatus
+//@   property C15
+//@   requires[own-status] !sharedStatus(stat)
+
+//@ func (*Param).validate
+//@   property C15
+//@ func (*Params).bindAndValidate
+//@   property C15
+//@ func (*StructArgsBinder).SetErrorFunc$1
+//@   property C15
+//@   ensures[default-errfunc-fresh] !sharedStatus(result)
